@@ -197,6 +197,7 @@ func init() {
 		wirePaddingPrecedence(wc, r, "C01")
 		wireOneByteEndian(w, wc, r, "C01")
 		wireSequenceFrame(w, r, "C01", map[string]bool{"Field": true})
+		attributeIsolation(w, r, "C01")
 		wireFieldOrderEmission(wc, r, "C01", map[string]bool{"enc": true})
 		wireAssumptions(r)
 	})
@@ -237,6 +238,7 @@ func init() {
 		"That the patched number equals the byte count (slice bounds, literal widths, which marker variables are subtracted) is a property of the emitted text and is not decided.", func(w *World, r *Report) {
 		wc := buildWire(w, r)
 		wireLength(w, wc, r)
+		lengthLinkByKind(w, r, "C04")
 		wireOneByteEndian(w, wc, r, "C04")
 		wireFieldOrderEmission(wc, r, "C04", map[string]bool{"enc": true})
 		wireAssumptions(r)
